@@ -13,6 +13,7 @@
    See the License for the specific language governing permissions and
    limitations under the License.
 """
+import secrets
 import numpy as np
 import scipy.sparse as sp
 from collections import defaultdict
@@ -766,7 +767,10 @@ class Variable(Expression):
 
     _UNNAMED_VARIABLE_CALL_COUNT = 0
 
-    _VARIABLE_GENERATION = 0
+    _VARIABLE_GENERATION = secrets.randbits(40) << 16
+    # ^ Each interpreter session starts its generation counter at a random offset. Variables that are
+    #   unpickled in a different session therefore never share a generation with Variables created
+    #   there (their scalar indices would collide), and mixing them is rejected by the compiler.
 
     # noinspection PyInitNewSignature
     def __new__(cls, shape=(), name=None, var_properties=None):
